@@ -283,6 +283,11 @@ where
                 Ok(_) => {}
                 Err(f) => {
                     println!("replay attempt {}: {} — {}", t + 1, f.clause, f.detail);
+                    if std::env::var("VCHECK_LOGS").is_ok() || std::env::var("VCHECK_TRACE").is_ok() {
+                        for l in take_last_trace() {
+                            println!("{l}");
+                        }
+                    }
                     println!("VIOLATION property={id} replay={}", path.display());
                     return 1;
                 }
@@ -335,6 +340,13 @@ where
             }
         }
     }
+
+    // `--only <clause>`: witness search for one clause (other failures are ignored)
+    let only_clause: Option<String> = args
+        .extra
+        .iter()
+        .position(|a| a == "--only")
+        .and_then(|i| args.extra.get(i + 1).cloned());
 
     // ---------------------------------------------------------------- regression plans
     let reg_dir = args.root.join("regress").join(id);
@@ -390,6 +402,7 @@ where
                 let exec = &exec;
                 let mk_strategy = &mk_strategy;
                 let replay_traces = &replay_traces;
+                let only_clause = &only_clause;
                 let seed = args.seed;
                 let max_shrink_iters = spec.max_shrink_iters;
                 let my_cases = total_cases / workers + if w < total_cases % workers { 1 } else { 0 };
@@ -425,7 +438,13 @@ where
                                     }
                                 }
                             }
-                            match exec(&case, gen_mode) {
+                            let mut result = exec(&case, gen_mode);
+                            if let (Err(f), Some(only)) = (&result, only_clause.as_ref()) {
+                                if &f.clause != only {
+                                    result = Ok(CaseReport::default());
+                                }
+                            }
+                            match result {
                                 Ok(rep) => {
                                     if !in_shrink {
                                         done_cases.fetch_add(1, Ordering::SeqCst);
